@@ -89,6 +89,8 @@ def main(chk):
         for n in ((1, 2) if q else (1, 2, 3)):
             if IND[name]['np'] == 0 and n > 1: continue
             hs.append(k_harness(name, mode, n, chk.seed))
+            if name in ('MIN', 'MAX'): hs.append(k_harness(name, mode, n, chk.seed, anycont=True))
+    for n in (3,): hs += [k_harness('MIN', 'scalar', n, chk.seed, anycont=True), k_harness('MAX', 'scalar', n, chk.seed, anycont=True)]
     chk.add(kani.run_family_set('C04', hs, jobs=14, timeout_s=240 if q else 1800))
     chk.assumptions += ['engine R: histories and continuations are finite reals (NaN/inf histories are engine K\'s part)',
                         'continuation length n+2 flushes the window']
@@ -106,10 +108,10 @@ def cont_values(n, seed):
     return (base[k:] + base[:k])[:n + 2]
 
 
-def k_harness(name, mode, n, seed):
+def k_harness(name, mode, n, seed, anycont=False):
     per = specs(name, n)
-    b = KB('c04_hist_%s_%s_n%d' % (name.lower(), mode, n), unwind=max(per + [1]) + 3, stub_sqrt=False,
-           family='K:C04 %s %s periods=%s: arbitrary-f64 history, reset, finite continuation == fresh' % (name, mode, per),
+    b = KB('c04_%s_%s_%s_n%d' % ('anyc' if anycont else 'hist', name.lower(), mode, n), unwind=max(per + [1]) + 3, stub_sqrt=False,
+           family='K:C04 %s %s periods=%s: arbitrary-f64 history, reset, %s continuation == fresh' % (name, mode, per, 'arbitrary-f64 (NaN, inf included)' if anycont else 'finite'),
            bounds=dict(engine='K', indicator=name, input=mode, periods=per, history='%d inputs, every f64 bit pattern (NaN, +-inf, +-f64::MAX, subnormals)' % (n + 1),
                        continuation='%d fixed finite inputs' % (n + 2)))
     k = KOps(b)
@@ -121,6 +123,8 @@ def k_harness(name, mode, n, seed):
     pairs = []
     for j, x in enumerate(cv):
         pol = ('lit', x) if mode == 'scalar' else [('lit', x), ('lit', x + 0.5), ('lit', x - 0.25), ('lit', x + 0.125), ('lit', 10.0 + j)]
+        if anycont:
+            v = b.anyf('c%d' % j); pol = ('var', v, ('sym', 'c%d' % j))
         oa = k.feed('a', mode, pol); of = k.feed('f', mode, pol)
         pairs.append((oa, of))
         b.emit('assert!(same(%s, %s), "output after reset differs from a fresh instance");' % (oa, of))
